@@ -97,7 +97,9 @@ func (s *SourceSplitter) Start(ckpt *snapshotpb.SourceCheckpoint) error {
 	if err != nil {
 		return fmt.Errorf("kinesis.SourceSplitter failed to discover shards: %w", err)
 	}
-	pendingShards = append(pendingShards, s.splitTracker.AvailableSplits()...)
+	// The restored shards were loaded into the tracker as unassigned, so they
+	// are returned here together with the newly discovered shards.
+	pendingShards = s.splitTracker.AvailableSplits()
 
 	// Do the initial split assignment
 	s.assignShards(ctx, pendingShards)
